@@ -16,6 +16,10 @@
 //   h_ctl race   stdin: "<hex sqf text>\t<controller actions>"   the executor runs freely (no handshake); for ThreadSanitizer
 //                stdout: "<result>;...R<start result>:<state>:<marks executed after the controller was done>"
 //
+//   h_ctl sleepers stdin: "<hex sqf text>\t<controller actions>"   the main script ends with verif_mark__, every other script sleeps
+//                far into the future; the controller acts while the executor spins over sleeping scripts only
+//                stdout: "<result>:<state>;...R<start result or -99>:<state>:<1 if start() returned>:<CPU ms of the executor thread since the actions>[;N<result>:<state>]"
+//
 //   base:    E = nothing loaded, L = script loaded (never started), F = loaded and run to the end by start,
 //            X = loaded and started (the script is expected to fail: halted_error)
 //   actions: s start, t stop, a abort, p assembly_step, l line_step, v leave_scope
@@ -26,6 +30,8 @@
 #include "opcodes/common.h"
 #include "runtime/d_code.h"
 #include <thread>
+#include <pthread.h>
+#include <time.h>
 #include <mutex>
 #include <condition_variable>
 #include <atomic>
@@ -337,6 +343,56 @@ int main(int argc, char** argv)
                 o += ";N" + std::to_string(again) + ":" + std::to_string(vm.state());
                 return o;
             }, 30000, CTL_MEM_MB);
+        }
+        else if (mode == "sleepers" && f.size() == 2)
+        {
+            // every script of the run is asleep (far in the future) when the controller acts: the main script ends with verif_mark__,
+            // the spawned ones sleep.  The executor thread spins in the scheduler loop; an accepted stop / abort must end its start()
+            // at once.  "At once" is measured in processor time of the executor THREAD (a starved thread does not count as hanging):
+            // it is given up as not stopping after 1500 ms of its own CPU time, or 90 s on the wall clock.
+            out = forked([&]() -> std::string {
+                VM& vm = *new VM(0, true);
+                vm.rt->register_sqfop(sqf::runtime::sqfop::nular("verif_mark__", "counts an executed instruction", park::op_mark));
+                if (!vm.load(unhex(f[0]))) return "PARSEFAIL";
+                static std::atomic<int> start_result{ -99 };
+                static std::atomic<bool> have_clock{ false };
+                static clockid_t cid;
+                std::thread executor([&] {
+                    have_clock = pthread_getcpuclockid(pthread_self(), &cid) == 0;
+                    start_result = (int)vm.rt->execute(rt_t::action::start);
+                });
+                auto wall_ms = [] { struct timespec t; clock_gettime(CLOCK_MONOTONIC, &t); return (long long)t.tv_sec * 1000 + t.tv_nsec / 1000000; };
+                auto cpu_ms = [&]() -> long long { struct timespec t; if (!have_clock || clock_gettime(cid, &t) != 0) return -1; return (long long)t.tv_sec * 1000 + t.tv_nsec / 1000000; };
+                long long t0 = wall_ms();
+                while (park::marks.load() < 1 && start_result == -99 && wall_ms() - t0 < 60000) usleep(1000);
+                // let the main script run out (a few instructions) so that only sleepers are left
+                long long c0 = cpu_ms();
+                while (start_result == -99 && cpu_ms() - c0 < 30 && wall_ms() - t0 < 60000) usleep(1000);
+                std::string o;
+                if (start_result != -99) return "EARLY" + std::to_string(start_result.load());
+                for (char c : f[1])
+                {
+                    int r = (int)vm.rt->execute(action_of(c));
+                    o += std::to_string(r) + ":" + std::to_string(vm.state()) + ";";
+                }
+                long long c1 = cpu_ms(), w1 = wall_ms(), used = 0;
+                while (start_result == -99 && wall_ms() - w1 < 90000)
+                {
+                    long long c = cpu_ms();
+                    if (c >= 0) used = c - c1;
+                    if (used >= 1500) break;
+                    usleep(2000);
+                }
+                if (start_result == -99)
+                {   // the executor keeps spinning: report and leave (the forked child ends with the thread still running)
+                    executor.detach();     // it still uses the VM and the flags below: they are never freed (this child ends right away)
+                    return o + "R-99:" + std::to_string(vm.state()) + ":0:" + std::to_string(used);
+                }
+                executor.join();
+                o += "R" + std::to_string(start_result.load()) + ":" + std::to_string(vm.state()) + ":1:" + std::to_string(used);
+                int again = (int)vm.rt->execute(rt_t::action::assembly_step);
+                return o + ";N" + std::to_string(again) + ":" + std::to_string(vm.state());
+            }, 120000, CTL_MEM_MB);
         }
         else if (mode == "race" && f.size() == 2)
         {
